@@ -14,6 +14,9 @@
 //     the window, to a live session: it must be surfaced;
 //   * `note expect-connected[:<signature>]` : the next op is a valid connection response for a server with a
 //     free slot below its limit: it must answer `connected …`;
+//   * `note expect-up[:<signature>]` : the next op is a `cli-q` / `srv-q` of an honest client with a valid token and
+//     a free slot after a lossless phase of at least three send periods on the live address: that side must be
+//     connected;
 //   * `note rt` : the next two ops are an encode/decode (seal/open, write/read) pair that must round-trip;
 //   * `note mutated` : the next op decodes/opens a tampered sealed input: it must not answer `ok`;
 //   * `note setup-done` : end of the configuration prefix (kept by the shrinker).
@@ -408,7 +411,11 @@ fn script_handshake(rng: &mut Rng, tier: Tier, f: &mut dyn FnMut(&str) -> String
             TokKind::SealExpire => spec.seal_expire = spec.expire + 1,
             TokKind::WrongHost => spec.addrs = BOGUS_A.to_string(),
             TokKind::MultiHost => {
-                spec.addrs = format!("{},{}", BOGUS_A, srv_addrs.join(","));
+                // 2..4 addresses, only one of them (at a random position) is the server's
+                let n = rng.range(2, 4) as usize;
+                let k = rng.below(n as u64) as usize;
+                let list: Vec<String> = (0..n).map(|j| if j == k { srv_addrs[0].clone() } else { a4(10, 99, 99, j as u8, 5990 + j as u16) }).collect();
+                spec.addrs = list.join(",");
                 spec.timeout = rng.pick(&[1, 2]);
                 spec.expire = now_s + 30;
                 spec.seal_expire = spec.expire;
@@ -468,6 +475,9 @@ fn script_handshake(rng: &mut Rng, tier: Tier, f: &mut dyn FnMut(&str) -> String
             let (_, e) = sc.opd(&format!("cli-upd {} {}", cls[i].h, cdt));
             if let Some(e) = e {
                 net.q.push((e, tick));
+            }
+            if cls[i].tok.spec.addrs.contains(',') && rng.chance(2, 3) {
+                sc.op(&format!("cli-q {}", cls[i].h));
             }
         }
         // the network
@@ -544,6 +554,17 @@ fn script_handshake(rng: &mut Rng, tier: Tier, f: &mut dyn FnMut(&str) -> String
                 let id = if rng.chance(1, 2) { 1000 } else { 1001 };
                 sc.op(&format!("srv-q 0 {}", id));
             }
+            9 | 10 => {
+                // an eavesdropper replays a captured connection request from an address of its own
+                let reqs: Vec<Vec<u8>> = sc.hist.iter().filter(|d| matches!(d.from, Src::Cli(_)) && d.bytes.len() >= 1078 && d.bytes[0] & 0xf == 0).map(|d| d.bytes.clone()).collect();
+                if !reqs.is_empty() {
+                    let d = rng.pick(&reqs);
+                    let from = a4(172, 16, 0, rng.range(1, 3) as u8, 4700);
+                    let (out, e) = sc.opd(&format!("srv-rx 0 {} {}", from, hex(&d)));
+                    track_result(&mut st, &out);
+                    let _ = e; // nobody listens at that address
+                }
+            }
             8 => {
                 if !cls.is_empty() {
                     let c = rng.below(cls.len() as u64) as usize;
@@ -595,6 +616,35 @@ fn new_client(sc: &mut Sc, h: u64, addr: &str, spec: &TokSpec, now_us: u64) -> O
 /// lossless handshake; true when the server reported `connected`
 fn fast_connect(sc: &mut Sc, cl: &Cl) -> bool {
     let (_, e) = sc.opd(&format!("cli-upd {} 0", cl.h));
+    let req = match e {
+        Some(k) => sc.hist[k].bytes.clone(),
+        None => return false,
+    };
+    let (_, e) = sc.opd(&format!("srv-rx 0 {} {}", cl.addr, hex(&req)));
+    let chal = match e {
+        Some(k) => sc.hist[k].bytes.clone(),
+        None => return false,
+    };
+    sc.op(&format!("cli-rx {} {}", cl.h, hex(&chal)));
+    let (_, e) = sc.opd(&format!("cli-upd {} 0", cl.h));
+    let resp = match e {
+        Some(k) => sc.hist[k].bytes.clone(),
+        None => return false,
+    };
+    let (out, e) = sc.opd(&format!("srv-rx 0 {} {}", cl.addr, hex(&resp)));
+    if !out.starts_with("connected ") {
+        return false;
+    }
+    if let Some(k) = e {
+        let ka = sc.hist[k].bytes.clone();
+        sc.op(&format!("cli-rx {} {}", cl.h, hex(&ka)));
+    }
+    true
+}
+
+/// like `fast_connect` for a client that has already sent its first request: the next one is due a send period later
+fn fast_connect_at(sc: &mut Sc, cl: &Cl, _n: u32) -> bool {
+    let (_, e) = sc.opd(&format!("cli-upd {} 250000", cl.h));
     let req = match e {
         Some(k) => sc.hist[k].bytes.clone(),
         None => return false,
@@ -1074,9 +1124,10 @@ fn challenge_body(d: &[u8], proto: u64, s2c: &[u8; 32]) -> Option<Vec<u8>> {
 
 fn script_attacker(rng: &mut Rng, _tier: Tier, f: &mut dyn FnMut(&str) -> String) {
     let mut sc = Sc::new(f);
-    let scenario = rng.below(6);
+    let scenario = rng.below(7);
     let max = match scenario {
         3 => 1,
+        6 => rng.pick(&[1usize, 2]),
         _ => rng.pick(&[2usize, 3]),
     };
     let srv = setup_server(&mut sc, rng, max);
@@ -1218,9 +1269,88 @@ fn script_attacker(rng: &mut Rng, _tier: Tier, f: &mut dyn FnMut(&str) -> String
                 sc.op(&format!("cli-rx 2 {}", hex(&reply)));
             }
             sc.op("cli-dump 2");
+            // the captured request of the third client replayed from somewhere else while the server is full
+            srv_rx(&mut sc, &a4(10, 3, 0, 9, 4309), &reqs[2]);
             if rng.chance(1, 2) {
                 sc.op("srv-setmax 0 0");
                 srv_rx(&mut sc, &a[2], &reqs[2]);
+                srv_rx(&mut sc, &a4(10, 3, 0, 9, 4309), &reqs[2]);
+            }
+        }
+        6 => {
+            // a FULL server (every slot taken) is asked by holders of invalid tokens: it must stay silent
+            let nfill = max.min(2);
+            for i in 0..nfill {
+                fast_connect_at(&mut sc, &cls[i], 1);
+            }
+            sc.op("srv-dump 0");
+            let victim = 2usize; // its token is valid and unused
+            let x = a4(10, 3, 0, 9, 4309);
+            // valid token, first presented from its owner's address: a (legitimate) denial …
+            let (_, reply) = srv_rx(&mut sc, &a[victim], &reqs[victim]);
+            if let Some(reply) = reply {
+                sc.op(&format!("cli-rx {} {}", victim, hex(&reply)));
+            }
+            // … the captured request from anywhere else: nothing
+            srv_rx(&mut sc, &x, &reqs[victim]);
+            // a response for a handshake that does not exist
+            let bogus_resp = forge(3, 5, srv.proto, &cls[victim].tok.spec.c2s, &rng.bytes(308));
+            srv_rx(&mut sc, &a[victim], &bogus_resp);
+            srv_rx(&mut sc, &x, &bogus_resp);
+            // tokens that were never valid here
+            let kinds = [TokKind::ForeignKey, TokKind::ForeignProto, TokKind::WrongHost, TokKind::ExpiredAt(1), TokKind::SealExpire];
+            let mut expiring: Option<(String, Vec<u8>)> = None;
+            for (j, kind) in kinds.iter().enumerate() {
+                if !rng.chance(2, 3) {
+                    continue;
+                }
+                let mut spec = base_spec(rng, 950 + j as u64, srv.proto, srv.key, now_s, &hosts);
+                spec.expire = now_s + 30;
+                spec.seal_expire = spec.expire;
+                match kind {
+                    TokKind::ForeignKey => spec.key = k32(rng),
+                    TokKind::ForeignProto => {
+                        spec.proto = srv.proto.wrapping_add(1);
+                        spec.seal_proto = spec.proto;
+                    }
+                    TokKind::WrongHost => spec.addrs = BOGUS_A.to_string(),
+                    TokKind::ExpiredAt(_) => {
+                        spec.create = now_s.saturating_sub(10);
+                        spec.expire = now_s + 1;
+                        spec.seal_expire = spec.expire;
+                    }
+                    _ => spec.seal_expire = spec.expire + 1,
+                }
+                let from = a4(10, 3, 1, j as u8, 4400 + j as u16);
+                if let Some(c) = new_client(&mut sc, 10 + j as u64, &from, &spec, srv.now_us) {
+                    if let (_, Some(k)) = sc.opd(&format!("cli-upd {} 0", c.h)) {
+                        let req = sc.hist[k].bytes.clone();
+                        if let TokKind::ExpiredAt(_) = kind {
+                            expiring = Some((from.clone(), req.clone()));
+                        } else {
+                            srv_rx(&mut sc, &from, &req);
+                        }
+                    }
+                }
+            }
+            if let Some((from, req)) = expiring {
+                sc.op("srv-upd 0 1000001");
+                srv_rx(&mut sc, &from, &req);
+            }
+            sc.op("srv-dump 0");
+            // a slot becomes free: the bindings made while full still hold
+            if rng.chance(2, 3) {
+                sc.op(&format!("srv-disc 0 {}", cls[0].tok.spec.id));
+                srv_rx(&mut sc, &x, &reqs[victim]);
+                let (_, ch) = srv_rx(&mut sc, &a[victim], &reqs[victim]);
+                if let Some(ch) = ch {
+                    sc.op(&format!("cli-rx {} {}", victim, hex(&ch)));
+                    if let (_, Some(k)) = sc.opd(&format!("cli-upd {} 0", victim)) {
+                        let resp = sc.hist[k].bytes.clone();
+                        srv_rx(&mut sc, &x, &resp);
+                        srv_rx(&mut sc, &a[victim], &resp);
+                    }
+                }
             }
         }
         4 => {
@@ -1716,7 +1846,7 @@ fn script_wire(rng: &mut Rng, tier: Tier, f: &mut dyn FnMut(&str) -> String) {
 // profile 0: nc-regress — one fixed op list per repaired defect (deterministic, run on every check)
 // =============================================================================================
 
-const REGRESS_CASES: usize = 11;
+const REGRESS_CASES: usize = 13;
 
 fn regress_script(case: usize, f: &mut dyn FnMut(&str) -> String) {
     let mut rng = Rng::new(0xD1CE + case as u64);
@@ -1906,6 +2036,73 @@ fn regress_script(case: usize, f: &mut dyn FnMut(&str) -> String) {
             sc.op("cli-dump 1");
             sc.op("srv-dump 0");
         }
+        // fail-over: the first address is silent, the first request to the second one is lost; the client must
+        // stay on the second address for its whole timeout and connect once the network delivers
+        11 => {
+            let mut spec = base_spec(rng, 45, proto, key, 5, &format!("{},{}", BOGUS_A, SRV_A));
+            spec.expire = 65;
+            spec.seal_expire = 65;
+            spec.timeout = 1;
+            let a = a4(10, 9, 0, 5, 4905);
+            if let Some(c) = new_client(&mut sc, 5, &a, &spec, 5_000_000) {
+                sc.op("cli-upd 5 0"); // request towards the silent address
+                sc.op("cli-q 5");
+                for _ in 0..3 {
+                    sc.op("cli-upd 5 400000"); // the third one fails over; its request to the real server is lost
+                    sc.op("cli-q 5");
+                }
+                for _ in 0..2 {
+                    sc.op("cli-upd 5 100000");
+                    sc.op("cli-q 5");
+                }
+                sc.op("srv-upd 0 1500000");
+                // a send period after the lost request the next one goes out and arrives
+                if let (_, Some(k)) = sc.opd("cli-upd 5 100000") {
+                    let req = sc.hist[k].bytes.clone();
+                    if let (_, Some(k)) = sc.opd(&format!("srv-rx 0 {} {}", c.addr, hex(&req))) {
+                        let chal = sc.hist[k].bytes.clone();
+                        sc.op(&format!("cli-rx 5 {}", hex(&chal)));
+                        if let (_, Some(k)) = sc.opd("cli-upd 5 0") {
+                            let resp = sc.hist[k].bytes.clone();
+                            if let (_, Some(k)) = sc.opd(&format!("srv-rx 0 {} {}", c.addr, hex(&resp))) {
+                                let ka = sc.hist[k].bytes.clone();
+                                sc.op(&format!("cli-rx 5 {}", hex(&ka)));
+                            }
+                        }
+                    }
+                }
+                sc.op("cli-upd 5 100000");
+                sc.op("note expect-up:failover-not-connected");
+                sc.op("cli-q 5");
+                sc.op("note expect-up:failover-not-connected");
+                sc.op("srv-q 0 45");
+            }
+        }
+        // a full server stays silent towards a captured request replayed from another address
+        12 => {
+            fast_connect(&mut sc, &cls[0]);
+            fast_connect(&mut sc, &cls[1]);
+            sc.op("srv-dump 0");
+            let mut spec = base_spec(rng, 46, proto, key, 5, &hosts);
+            spec.expire = 35;
+            spec.seal_expire = 35;
+            let a = a4(10, 9, 0, 6, 4906);
+            let x = a4(10, 9, 0, 66, 4966);
+            if let Some(c) = new_client(&mut sc, 5, &a, &spec, 5_000_000) {
+                if let (_, Some(k)) = sc.opd("cli-upd 5 0") {
+                    let req = sc.hist[k].bytes.clone();
+                    sc.op(&format!("srv-rx 0 {} {}", c.addr, hex(&req))); // owner: denied (server full)
+                    sc.op(&format!("srv-rx 0 {} {}", x, hex(&req))); // thief: nothing
+                    let bogus = forge(3, 9, proto, &spec.c2s, &[0x5a; 308]);
+                    sc.op(&format!("srv-rx 0 {} {}", c.addr, hex(&bogus)));
+                    sc.op("srv-dump 0");
+                    sc.op(&format!("srv-disc 0 {}", cls[0].tok.spec.id));
+                    sc.op(&format!("srv-rx 0 {} {}", x, hex(&req))); // still bound to its owner's address
+                    sc.op(&format!("srv-rx 0 {} {}", c.addr, hex(&req)));
+                    sc.op("srv-dump 0");
+                }
+            }
+        }
         // sequence 2^64-1 (the window's EMPTY sentinel) from the owner of a session
         _ => {
             fast_connect(&mut sc, &cls[0]);
@@ -2005,6 +2202,153 @@ fn fixed_ops(case: usize, script: fn(usize, &mut dyn FnMut(&str) -> String)) -> 
     ops
 }
 
+
+// =============================================================================================
+// profile nc-failover (C18): tokens listing 2..4 server addresses of which only one answers; loss or delay of the
+// first packets on every address; then a lossless phase after which both sides must be connected
+// =============================================================================================
+
+struct FoClient {
+    cl: Cl,
+    real_at: usize,
+    timeout_us: u64,
+    /// client clock
+    t_us: u64,
+    /// when the client first addressed the real server
+    reached_us: Option<u64>,
+    /// length of the faulty window after `reached_us`
+    window_us: u64,
+    delay_instead_of_loss: bool,
+    held: Vec<usize>,
+    done: bool,
+}
+
+fn script_failover(rng: &mut Rng, _tier: Tier, f: &mut dyn FnMut(&str) -> String) {
+    let mut sc = Sc::new(f);
+    let max = rng.pick(&[2usize, 3, 4]);
+    let srv = setup_server(&mut sc, rng, max);
+    let now_s = srv.now_us / 1_000_000;
+    let n_clients = rng.range(1, 2) as usize;
+    let mut fcs: Vec<FoClient> = vec![];
+    for i in 0..n_clients {
+        let n = rng.range(2, 4) as usize;
+        let k = if rng.chance(1, 6) { 0 } else { rng.range(1, n as u64 - 1) as usize };
+        let list: Vec<String> = (0..n).map(|j| if j == k { SRV_A.to_string() } else { a4(10, 77, i as u8, j as u8, 5800 + j as u16) }).collect();
+        let mut spec = base_spec(rng, 600 + i as u64, srv.proto, srv.key, now_s, &list.join(","));
+        spec.timeout = rng.pick(&[1, 2, 3]);
+        spec.expire = now_s + 300;
+        spec.seal_expire = spec.expire;
+        let addr = a4(10, 6, 0, 1 + i as u8, 4600 + i as u16);
+        let timeout_us = spec.timeout as u64 * 1_000_000;
+        if let Some(cl) = new_client(&mut sc, i as u64, &addr, &spec, srv.now_us) {
+            // the faulty window leaves the client enough of its timeout to complete afterwards
+            let window_us = rng.pick(&[0u64, 100_000, 200_000, 300_000, timeout_us - 700_000]).min(timeout_us - 700_000);
+            fcs.push(FoClient { cl, real_at: k, timeout_us, t_us: srv.now_us, reached_us: None, window_us, delay_instead_of_loss: rng.chance(1, 2), held: vec![], done: false });
+        }
+    }
+    sc.op("note setup-done");
+    if fcs.is_empty() {
+        return;
+    }
+    let mut connected: Vec<u64> = vec![];
+    let mut lossless_since: Vec<Option<u64>> = vec![None; fcs.len()];
+    let mut ticks = 0;
+    while ticks < 200 && sc.n < 260 && !fcs.iter().all(|c| c.done) {
+        ticks += 1;
+        // coarse steps while every client still waits on a silent address, fine steps near the live one
+        let all_waiting = fcs.iter().all(|c| c.reached_us.is_none() && c.real_at > 0);
+        let dt: u64 = if all_waiting { rng.pick(&[500_000u64, 700_000, 1_000_000]) } else { rng.pick(&[50_000u64, 100_000, 100_000]) };
+        sc.op(&format!("srv-upd 0 {}", dt));
+        for id in connected.clone() {
+            let (_, e) = sc.opd(&format!("srv-updc 0 {}", id));
+            if let Some(k) = e {
+                let dg = sc.hist[k].clone();
+                for c in fcs.iter() {
+                    if c.cl.addr == dg.to {
+                        sc.op(&format!("cli-rx {} {}", c.cl.h, hex(&dg.bytes)));
+                    }
+                }
+            }
+        }
+        for ci in 0..fcs.len() {
+            if fcs[ci].done {
+                continue;
+            }
+            let h = fcs[ci].cl.h;
+            let (_, e) = sc.opd(&format!("cli-upd {} {}", h, dt));
+            fcs[ci].t_us += dt;
+            let q = sc.op(&format!("cli-q {}", h));
+            let mut outgoing: Vec<usize> = vec![];
+            if let Some(k) = e {
+                if sc.hist[k].to == SRV_A {
+                    if fcs[ci].reached_us.is_none() {
+                        fcs[ci].reached_us = Some(fcs[ci].t_us);
+                    }
+                    outgoing.push(k);
+                }
+                // datagrams towards the silent addresses vanish
+            }
+            let in_window = match fcs[ci].reached_us {
+                Some(r) => fcs[ci].t_us < r + fcs[ci].window_us,
+                None => false,
+            };
+            if in_window {
+                if fcs[ci].delay_instead_of_loss {
+                    fcs[ci].held.extend(outgoing);
+                }
+                continue;
+            }
+            if fcs[ci].reached_us.is_some() && lossless_since[ci].is_none() {
+                lossless_since[ci] = Some(fcs[ci].t_us);
+            }
+            // lossless from here on: what was held back arrives first (late), then the fresh datagram
+            let mut to_server: Vec<usize> = std::mem::take(&mut fcs[ci].held);
+            to_server.extend(outgoing);
+            let mut rounds = 0;
+            while !to_server.is_empty() && rounds < 4 {
+                rounds += 1;
+                let mut replies: Vec<usize> = vec![];
+                for k in to_server.drain(..) {
+                    let d = sc.hist[k].bytes.clone();
+                    let (out, e) = sc.opd(&format!("srv-rx 0 {} {}", fcs[ci].cl.addr, hex(&d)));
+                    if let Some(id) = out.strip_prefix("connected ").and_then(|r| r.split(' ').next()).and_then(p_u64) {
+                        connected.push(id);
+                    }
+                    if let Some(e) = e {
+                        replies.push(e);
+                    }
+                }
+                for k in replies {
+                    let d = sc.hist[k].bytes.clone();
+                    sc.op(&format!("cli-rx {} {}", h, hex(&d)));
+                }
+                // a challenge makes the client answer at once
+                let (_, e) = sc.opd(&format!("cli-upd {} 0", h));
+                if let Some(k) = e {
+                    if sc.hist[k].to == SRV_A {
+                        to_server.push(k);
+                    }
+                }
+            }
+            // judged once the lossless phase has lasted three send periods (plus the step granularity)
+            if let Some(since) = lossless_since[ci] {
+                if fcs[ci].t_us >= since + 3 * 250_000 + 100_000 {
+                    sc.op("note expect-up:failover-not-connected");
+                    sc.op(&format!("cli-q {}", h));
+                    sc.op("note expect-up:failover-not-connected");
+                    sc.op(&format!("srv-q 0 {}", fcs[ci].cl.tok.spec.id));
+                    fcs[ci].done = true;
+                }
+            }
+            let _ = q;
+        }
+    }
+    sc.op("srv-dump 0");
+    for c in fcs.iter() {
+        sc.op(&format!("cli-dump {}", c.cl.h));
+    }
+}
+
 fn keep_setup(ops: &[String]) -> usize {
     ops.iter().position(|o| o == "note setup-done").map(|i| i + 1).unwrap_or(0)
 }
@@ -2031,7 +2375,7 @@ pub fn profiles() -> Vec<Profile> {
         },
         Profile {
             name: "nc-regress",
-            props: &["C07", "C17", "C05", "C10", "C18", "C16"],
+            props: &["C07", "C17", "C05", "C10", "C18", "C16", "C19"],
             cases: |_| REGRESS_CASES,
             new_world,
             script: |_, _, _| {},
@@ -2076,6 +2420,16 @@ pub fn profiles() -> Vec<Profile> {
             new_world,
             script: script_hostile,
             nontrivial: |t| any_op(t, "note hostile") && any_out(t, "connected "),
+            keep: keep_setup,
+            fixed: None,
+        },
+        Profile {
+            name: "nc-failover",
+            props: &["C18", "C19", "C07"],
+            cases: |t| if t == Tier::Thorough { 2000 } else { 200 },
+            new_world,
+            script: script_failover,
+            nontrivial: |t| any_out(t, "connected ") && t.ops.iter().any(|o| o.starts_with("note expect-up")),
             keep: keep_setup,
             fixed: None,
         },
@@ -2439,6 +2793,7 @@ fn oracle_table(ops: &[String], outs: &[String]) -> Option<OracleFail> {
 struct TokInfo {
     proto: u64,
     expire: u64,
+    xnonce: Vec<u8>,
     key: Vec<u8>,
     id: u64,
     timeout: i32,
@@ -2455,9 +2810,10 @@ fn tokens_of(ops: &[String], outs: &[String], upto: usize) -> Vec<TokInfo> {
         let t = toks(&ops[i]);
         if t.len() == 11 && t[0] == "ptok-seal" {
             if let Some(p) = outs[i].strip_prefix("ok ") {
-                let (Some(proto), Some(expire), Some(key), Some(id), Some(timeout), Some(c2s), Some(s2c), Some(ud), Some(private)) = (
+                let (Some(proto), Some(expire), Some(xnonce), Some(key), Some(id), Some(timeout), Some(c2s), Some(s2c), Some(ud), Some(private)) = (
                     p_u64(t[1]),
                     p_u64(t[2]),
+                    p_hex(t[3]),
                     p_hex(t[4]),
                     p_u64(t[5]),
                     p_i32(t[6]),
@@ -2469,7 +2825,7 @@ fn tokens_of(ops: &[String], outs: &[String], upto: usize) -> Vec<TokInfo> {
                     continue;
                 };
                 let addrs: Vec<String> = if t[7] == "-" { vec![] } else { t[7].split(',').filter(|a| *a != "_").map(|a| a.to_string()).collect() };
-                v.push(TokInfo { proto, expire, key, id, timeout, addrs, c2s, s2c, ud: ud.to_vec(), private });
+                v.push(TokInfo { proto, expire, xnonce, key, id, timeout, addrs, c2s, s2c, ud: ud.to_vec(), private });
             }
         }
     }
@@ -3004,6 +3360,316 @@ fn oracle_expect_connected(ops: &[String], outs: &[String]) -> Option<OracleFail
     None
 }
 
+
+/// C18 (progress), second form: `note expect-up[:<signature>]` before a `cli-q` / `srv-q` — the script knows
+/// that an honest client with a valid token, a free slot and a lossless network for long enough must be
+/// connected (on that side) by now
+fn oracle_expect_up(ops: &[String], outs: &[String]) -> Option<OracleFail> {
+    for i in 0..ops.len() {
+        if !(ops[i] == "note expect-up" || ops[i].starts_with("note expect-up:")) || i + 1 >= ops.len() || i + 1 >= outs.len() {
+            continue;
+        }
+        let sig = ops[i].strip_prefix("note expect-up:").unwrap_or("not-connected-after-lossless-phase");
+        let o = &outs[i + 1];
+        if o == "panic" || o == "dead" {
+            continue;
+        }
+        let t = toks(&ops[i + 1]);
+        let up = match t.first().cloned() {
+            Some("cli-q") => field(o, "connected") == Some("1"),
+            Some("srv-q") => field(o, "conn") == Some("1"),
+            _ => continue,
+        };
+        if !up {
+            return fail(
+                i + 1,
+                sig,
+                format!("after a lossless phase long enough for every silent address plus three send periods the {} side is not connected: `{}`", if t[0] == "cli-q" { "client" } else { "server" }, trunc_s(o, 90)),
+            );
+        }
+    }
+    None
+}
+
+/// C18 (fail-over safety): a client leaves a server address (moves on to the next one, or gives up with
+/// Connection{Request,Response}TimedOut) only after more than `timeout_seconds` on THAT address.
+/// Client clocks are reconstructed from the ops; a fail-over is seen as a connection request towards a new address.
+fn oracle_failover_patient(ops: &[String], outs: &[String]) -> Option<OracleFail> {
+    struct C {
+        t_us: u128,
+        start_us: u128,
+        dest: Option<String>,
+        timeout: i32,
+        // number of updates since the last observation that showed the client still connecting
+        upd_since_obs: u32,
+        gave_up: bool,
+    }
+    let mut cl: HashMap<String, C> = HashMap::new();
+    let n = ops.len().min(outs.len());
+    for i in 0..n {
+        let t = toks(&ops[i]);
+        if t.len() < 2 {
+            continue;
+        }
+        let h = t[1].to_string();
+        match t[0] {
+            "cli-new" if t.len() == 4 => {
+                cl.remove(&h);
+                if outs[i] == "ok" {
+                    if let (Some(now), Some(b)) = (p_u64(t[2]), p_hex(t[3])) {
+                        if let Ok(tok) = ConnectToken::read(&mut &b[..]) {
+                            cl.insert(h, C { t_us: now as u128, start_us: now as u128, dest: None, timeout: tok.timeout_seconds, upd_since_obs: 0, gave_up: false });
+                        }
+                    }
+                }
+            }
+            "cli-upd" if t.len() == 3 => {
+                let Some(c) = cl.get_mut(&h) else { continue };
+                c.t_us += p_u64(t[2]).unwrap_or(0) as u128;
+                c.upd_since_obs += 1;
+                let o = toks(&outs[i]);
+                if o.len() == 3 && o[0] == "send" && o[2].len() >= 2156 {
+                    let first = u8::from_str_radix(&o[2][..2], 16).unwrap_or(0xff);
+                    if first & 0xf == 0 {
+                        // a connection request
+                        match &c.dest {
+                            Some(d) if d != o[1] => {
+                                let spent = c.t_us - c.start_us;
+                                if c.timeout > 0 && spent <= c.timeout as u128 * 1_000_000 {
+                                    return fail(
+                                        i,
+                                        "failover-gave-up-early",
+                                        format!("client {} left server address {} for {} after {} us, its timeout is {} s", h, d, o[1], spent, c.timeout),
+                                    );
+                                }
+                                c.start_us = c.t_us;
+                                c.dest = Some(o[1].to_string());
+                                c.upd_since_obs = 0;
+                            }
+                            None => c.dest = Some(o[1].to_string()),
+                            _ => {}
+                        }
+                    }
+                }
+            }
+            "cli-q" | "cli-dump" => {
+                let Some(c) = cl.get_mut(&h) else { continue };
+                let o = &outs[i];
+                let (connecting, timed_out) = if t[0] == "cli-q" {
+                    (field(o, "connecting") == Some("1"), matches!(field(o, "reason"), Some("ConnectionRequestTimedOut") | Some("ConnectionResponseTimedOut")))
+                } else {
+                    let st = field(o, "state").unwrap_or("");
+                    (st.starts_with("Sending"), st == "Disconnected(ConnectionRequestTimedOut)" || st == "Disconnected(ConnectionResponseTimedOut)")
+                };
+                if connecting {
+                    c.upd_since_obs = 0;
+                }
+                if timed_out && !c.gave_up {
+                    c.gave_up = true;
+                    // the client gave up at one of the updates since the last observation; even the latest of them
+                    // (the current client time) must lie more than the timeout after it started on this address
+                    let spent = c.t_us - c.start_us;
+                    if c.timeout > 0 && spent <= c.timeout as u128 * 1_000_000 {
+                        return fail(
+                            i,
+                            "failover-gave-up-early",
+                            format!(
+                                "client {} gave up on server address {} (no more servers) {} us after it started trying it, its timeout is {} s",
+                                h,
+                                c.dest.clone().unwrap_or_default(),
+                                spent,
+                                c.timeout
+                            ),
+                        );
+                    }
+                }
+            }
+            _ => {}
+        }
+    }
+    None
+}
+
+// ----- C19 / C05: no answer at all to a datagram that does not carry a valid connect token --------------------
+
+/// Every connection request whose token is not valid for this server, this moment and this source address
+/// (unknown / foreign key / foreign protocol id / tampered public fields / expired / wrong host list / already
+/// bound to another address) and every connection response that cannot belong to a handshake of its source
+/// address must be answered `none` — whatever the state of the server (full or not).
+fn oracle_silent_to_invalid(ops: &[String], outs: &[String]) -> Option<OracleFail> {
+    let tokens = tokens_of(ops, outs, ops.len());
+    struct S {
+        cfg: SrvCfg,
+        ckey: [u8; 32],
+        ids: HashSet<u64>,
+        addrs: HashSet<String>,
+        id_addr: HashMap<u64, String>,
+        // token index -> address it is bound to
+        bound: HashMap<usize, String>,
+        // (address, token index) pairs whose request was answered
+        requested: HashSet<(String, usize)>,
+    }
+    let mut servers: HashMap<String, S> = HashMap::new();
+    walk(ops, outs, &mut |i, t, out, input, _| {
+        match t[0] {
+            "srv-new" if t.len() == 9 && out == "ok" => {
+                servers.insert(
+                    t[1].to_string(),
+                    S {
+                        cfg: SrvCfg {
+                            proto: p_u64(t[4]).unwrap_or(0),
+                            key: if t[5] == "1" { p_hex(t[6]).unwrap_or_default() } else { vec![0u8; 32] },
+                            secure: t[5] == "1",
+                            addrs: t[8].split(',').map(|a| a.to_string()).collect(),
+                            now_us: p_u64(t[2]).unwrap_or(0),
+                        },
+                        ckey: p_hexn::<32>(t[7]).unwrap_or([0u8; 32]),
+                        ids: HashSet::new(),
+                        addrs: HashSet::new(),
+                        id_addr: HashMap::new(),
+                        bound: HashMap::new(),
+                        requested: HashSet::new(),
+                    },
+                );
+            }
+            "srv-upd" if t.len() == 3 && out == "ok" => {
+                if let Some(s) = servers.get_mut(t[1]) {
+                    s.cfg.now_us = s.cfg.now_us.saturating_add(p_u64(t[2]).unwrap_or(0));
+                }
+            }
+            _ => {}
+        }
+        let mut result = None;
+        if t[0] == "srv-rx" && t.len() == 4 {
+            if let (Some(s), Some(d)) = (servers.get_mut(t[1]), input) {
+                let addr = t[2].to_string();
+                let answered = out.starts_with("send ") || out.starts_with("connected ");
+                if out != "panic" && out != "dead" && !d.is_empty() {
+                    let ty = d[0] & 0xf;
+                    if ty == 0 && d.len() >= 1078 {
+                        // ---- connection request: why would it be invalid?
+                        let version_ok = &d[1..14] == b"NETCODE 1.02\0";
+                        let pub_proto = u64::from_le_bytes(d[14..22].try_into().unwrap());
+                        let pub_expire = u64::from_le_bytes(d[22..30].try_into().unwrap());
+                        let xnonce = &d[30..54];
+                        let private = &d[54..1078];
+                        let ti = tokens.iter().position(|k| k.private == private);
+                        let now_s = s.cfg.now_us / 1_000_000;
+                        let invalid: Option<&str> = if !version_ok {
+                            Some("bad-version")
+                        } else if pub_proto != s.cfg.proto {
+                            Some("foreign-protocol")
+                        } else if now_s >= pub_expire {
+                            Some("expired")
+                        } else {
+                            match ti {
+                                None => Some("unknown-token"),
+                                Some(ti) => {
+                                    let k = &tokens[ti];
+                                    if k.key != s.cfg.key {
+                                        Some("foreign-key")
+                                    } else if k.proto != pub_proto || k.expire != pub_expire || k.xnonce != xnonce {
+                                        Some("tampered-public-fields")
+                                    } else if s.cfg.secure && !k.addrs.iter().any(|a| s.cfg.addrs.contains(a)) {
+                                        Some("wrong-host")
+                                    } else if s.bound.get(&ti).map(|b| *b != addr).unwrap_or(false) {
+                                        Some("bound-to-other-address")
+                                    } else {
+                                        None
+                                    }
+                                }
+                            }
+                        };
+                        match invalid {
+                            Some(kind) => {
+                                if answered {
+                                    result = fail(
+                                        i,
+                                        &format!("answered-invalid-token:{}", kind),
+                                        format!("a connection request from {} with an invalid token ({}) was answered with {} bytes (`{}`)", addr, kind, emitted_of("srv-rx", out).map(|e| e.1.len()).unwrap_or(0), trunc_s(out, 30)),
+                                    );
+                                }
+                            }
+                            None => {
+                                // a valid token: it becomes bound to this address unless the server stops before
+                                // looking at its table (client id or address already connected)
+                                let ti = ti.unwrap();
+                                let k = &tokens[ti];
+                                if !s.ids.contains(&k.id) && !s.addrs.contains(&addr) {
+                                    s.bound.entry(ti).or_insert(addr.clone());
+                                }
+                                if answered {
+                                    s.requested.insert((addr.clone(), ti));
+                                }
+                            }
+                        }
+                    } else if ty == 3 && answered {
+                        // ---- connection response that got an answer: it must belong to a handshake of this address
+                        let opened = tokens.iter().enumerate().find_map(|(ti, k)| try_open(d, s.cfg.proto, &k.c2s).map(|(_, _, body)| (ti, body)));
+                        let kind: Option<&str> = match opened {
+                            None => Some("unknown-key"),
+                            Some((ti, body)) => {
+                                let k = &tokens[ti];
+                                if !s.requested.contains(&(addr.clone(), ti)) {
+                                    Some("without-request-from-this-address")
+                                } else if body.len() < 308 {
+                                    Some("short")
+                                } else {
+                                    // the challenge token inside: sealed by this server for (id, user data) of that token?
+                                    let cseq = u64::from_le_bytes(body[..8].try_into().unwrap());
+                                    let mut ct = body[8..8 + 284].to_vec();
+                                    let tag = Tag::from_slice(&body[8 + 284..308]);
+                                    let cipher = ChaCha20Poly1305::new(Key::from_slice(&s.ckey));
+                                    match cipher.decrypt_in_place_detached(Nonce::from_slice(&nc_nonce(cseq)), b"", &mut ct, tag) {
+                                        Err(_) => Some("challenge-not-from-this-server"),
+                                        Ok(()) => {
+                                            let cid = u64::from_le_bytes(ct[..8].try_into().unwrap());
+                                            if cid != k.id || ct[8..264] != k.ud[..] {
+                                                Some("challenge-of-another-client")
+                                            } else {
+                                                None
+                                            }
+                                        }
+                                    }
+                                }
+                            }
+                        };
+                        if let Some(kind) = kind {
+                            result = fail(
+                                i,
+                                &format!("answered-invalid-response:{}", kind),
+                                format!("a connection response from {} that cannot belong to its handshake ({}) was answered `{}`", addr, kind, trunc_s(out, 30)),
+                            );
+                        }
+                    }
+                }
+            }
+        }
+        // connection events (after the judgement of this op)
+        if t[0].starts_with("srv-") && t.len() >= 2 {
+            if let Some(s) = servers.get_mut(t[1]) {
+                let o = toks(out);
+                if o.len() >= 3 && o[0] == "connected" {
+                    if let Some(id) = p_u64(o[1]) {
+                        s.ids.insert(id);
+                        s.addrs.insert(o[2].to_string());
+                        s.id_addr.insert(id, o[2].to_string());
+                    }
+                }
+                if o.len() >= 3 && o[0] == "disconnected" {
+                    if let Some(id) = p_u64(o[1]) {
+                        s.ids.remove(&id);
+                        if let Some(a) = s.id_addr.remove(&id) {
+                            s.addrs.remove(&a);
+                        }
+                    }
+                }
+            }
+        }
+        result
+    })
+}
+
 const NC_ALL: &[&str] = &["nc-"];
 
 pub fn oracles() -> Vec<Oracle> {
@@ -3019,6 +3685,10 @@ pub fn oracles() -> Vec<Oracle> {
         Oracle { prop: "C16", name: "nc-wire-roundtrip", engines: &["nc-wire"], check: oracle_roundtrip },
         Oracle { prop: "C04", name: "nc-payloads-authentic-once", engines: &["nc-session", "nc-handshake", "nc-hostile", "nc-known"], check: oracle_payloads },
         Oracle { prop: "C18", name: "nc-handshake-completes", engines: &["nc-regress", "nc-attacker"], check: oracle_expect_connected },
+        Oracle { prop: "C18", name: "nc-lossless-phase-connects", engines: &["nc-failover", "nc-regress"], check: oracle_expect_up },
+        Oracle { prop: "C18", name: "nc-failover-patient", engines: &["nc-failover", "nc-handshake", "nc-regress", "nc-session", "nc-wire"], check: oracle_failover_patient },
+        Oracle { prop: "C19", name: "nc-silent-to-invalid", engines: &["nc-handshake", "nc-attacker", "nc-hostile", "nc-session", "nc-regress", "nc-failover", "nc-known"], check: oracle_silent_to_invalid },
+        Oracle { prop: "C05", name: "nc-silent-to-invalid", engines: &["nc-handshake", "nc-attacker", "nc-regress"], check: oracle_silent_to_invalid },
         Oracle { prop: "C18", name: "nc-timeouts-exact", engines: &["nc-handshake", "nc-session", "nc-hostile", "nc-regress"], check: oracle_timeouts },
     ]
 }
